@@ -2,7 +2,17 @@
    Model: Conc/Cells.v.  [trace m ops] / [final m ops] are the event history and the final state
    of running an ARBITRARY list of operations [ops] from the initial state.  [m] selects what a
    failed thunk evaluation leaves in the cell: [Faithful] = vm/src/lazy.rs as it is (the cell
-   stays `Blackhole owner`), [Fixed] = the failure is stored (fixes/C17-lazy-store-failure.patch). *)
+   stays `Blackhole owner`), [Fixed] = the failure is stored (fixes/C17-lazy-store-failure.patch,
+   applied to /repo as 2a7d11a).
+
+   Operation set: the main thread and every coroutine body run basic operations
+   {send, recv, load, store, force, yield} and — "coroutines operating on coroutines" —
+   {resume t, spawn body} with arbitrarily nested bodies: a coroutine may resume any coroutine it
+   has a handle of (sibling, own child, ...) and spawn coroutines of its own.  ALL theorems
+   below are proved for this full operation set (they quantify over arbitrary [ops], whose
+   bodies nest arbitrarily).  Not proved: that the recursion bound [fuel_for] of the model's
+   resume chain is never hit ([EFuel]; the driver would print FUEL — never observed in the
+   correspondence runs). *)
 From Coq Require Import List Arith.
 From GV Require Import Conc.Cells Conc.CellsProofs.
 Import ListNotations.
@@ -84,7 +94,7 @@ Print Assumptions C17_lazy_failing_body_never_value.
 (* Mode Fixed: nothing ever hangs ... *)
 Theorem C17_fixed_never_hangs : forall ops,
   hung (final Fixed ops) = false /\
-  (forall i, nth_error (threads (final Fixed ops)) i <> Some TBlocked) /\
+  (forall t, lookup t (threads (final Fixed ops)) <> Some TBlocked) /\
   (forall vis t k, ~ In (EForce vis t k FHang) (trace Fixed ops)).
 Proof. exact fixed_never_hangs. Qed.
 Print Assumptions C17_fixed_never_hangs.
@@ -118,7 +128,7 @@ Theorem C17_lazy_failure_other_thread_refuted :
     In (ELazy k failing) (trace Faithful ops) /\
     In (EForce true 0 k FErr) (trace Faithful ops) /\
     In (EForce true t k FHang) (trace Faithful ops) /\
-    nth_error (threads (final Faithful ops)) 0 = Some TBlocked.
+    lookup 0 (threads (final Faithful ops)) = Some TBlocked.
 Proof. exact lazy_failure_other_thread_refuted. Qed.
 Print Assumptions C17_lazy_failure_other_thread_refuted.
 
@@ -151,22 +161,32 @@ Print Assumptions C17_lazy_failure_same_thread_errors.
 (* ---- coroutines ---- *)
 (* resume of a finished thread reports dead and changes nothing ... *)
 Theorem C17_resume_dead_reports : forall m ops t,
-  nth_error (threads (final m ops)) t = Some TDone -> hung (final m ops) = false ->
-  step m (final m ops) (OResume t) = (final m ops, [EResume t RDead]).
+  lookup t (threads (final m ops)) = Some TDone -> hung (final m ops) = false ->
+  step m (final m ops) (OB (BResume t)) = (final m ops, [EResume 0 t RDead]).
 Proof. exact resume_dead_reports. Qed.
 Print Assumptions C17_resume_dead_reports.
 
-(* ... for ever ... *)
+(* ... for ever, whoever resumes it (main thread or any coroutine, [r0]) ... *)
 Theorem C17_resume_dead_forever : forall m ops ops' t,
-  nth_error (threads (final m ops)) t = Some TDone ->
-  nth_error (threads (final m (ops ++ ops'))) t = Some TDone /\
+  lookup t (threads (final m ops)) = Some TDone ->
+  lookup t (threads (final m (ops ++ ops'))) = Some TDone /\
   exists ext, trace m (ops ++ ops') = trace m ops ++ ext /\
-              forall x, In (EResume t x) ext -> x = RDead.
+              forall r0 x, In (EResume r0 t x) ext -> x = RDead.
 Proof. exact resume_dead_forever. Qed.
 Print Assumptions C17_resume_dead_forever.
 
 (* ... and only then. *)
-Theorem C17_resume_dead_only_when_done : forall m ops t,
-  In (EResume t RDead) (trace m ops) -> nth_error (threads (final m ops)) t = Some TDone.
+Theorem C17_resume_dead_only_when_done : forall m ops r0 t,
+  In (EResume r0 t RDead) (trace m ops) -> lookup t (threads (final m ops)) = Some TDone.
 Proof. exact resume_dead_only_when_done. Qed.
 Print Assumptions C17_resume_dead_only_when_done.
+
+(* What the resumed coroutine does is independent of who resumes it: same state, same status,
+   same events except the log entry naming the resumer. *)
+Theorem C17_resume_independent_of_resumer : forall m fuel tid tid' y st,
+  fst (fst (exec m fuel tid (BResume y) st)) = fst (fst (exec m fuel tid' (BResume y) st)) /\
+  snd (exec m fuel tid (BResume y) st) = snd (exec m fuel tid' (BResume y) st) /\
+  removelast (snd (fst (exec m fuel tid (BResume y) st))) =
+  removelast (snd (fst (exec m fuel tid' (BResume y) st))).
+Proof. exact resume_independent_of_resumer. Qed.
+Print Assumptions C17_resume_independent_of_resumer.
